@@ -90,6 +90,7 @@ type Request struct {
 	Trace      bool     `json:"trace"`
 	ListHashes bool     `json:"list_hashes"`
 	Property   string   `json:"property"`
+	RaceLog    string   `json:"race_log"`
 }
 
 type ViolationOut struct {
@@ -342,7 +343,13 @@ func runWorker(b *build, req Request, gomaxprocs int, timeout time.Duration) (*R
 	defer os.Remove(req.Out)
 	cmd := exec.Command(b.Worker, "-test.run", "^TestSim$", "-test.timeout", "0", "-test.count", "1")
 	cmd.Dir = b.Dir
-	cmd.Env = append(goEnv(), "SIM_REQ="+reqPath, "GOMAXPROCS="+strconv.Itoa(gomaxprocs), "GORACE=halt_on_error=0 log_path="+filepath.Join(b.Dir, fmt.Sprintf("race-%d", id)))
+	raceLog := filepath.Join(b.Dir, fmt.Sprintf("race-%d", id))
+	if strings.Contains(b.Dir, "race") {
+		req.RaceLog = raceLog
+		raw, _ = json.Marshal(req)
+		os.WriteFile(reqPath, raw, 0o644)
+	}
+	cmd.Env = append(goEnv(), "SIM_REQ="+reqPath, "GOMAXPROCS="+strconv.Itoa(gomaxprocs), "GORACE=halt_on_error=0 exitcode=0 log_path="+raceLog)
 	var outBuf strings.Builder
 	cmd.Stdout, cmd.Stderr = &outBuf, &outBuf
 	if err := cmd.Start(); err != nil {
@@ -366,7 +373,7 @@ func runWorker(b *build, req Request, gomaxprocs int, timeout time.Duration) (*R
 	if err := json.Unmarshal(data, &resp); err != nil {
 		return nil, fmt.Errorf("worker result unreadable: %v", err)
 	}
-	if werr != nil {
+	if werr != nil && !(strings.Contains(b.Dir, "race") && strings.Contains(outBuf.String(), "race detected during execution of test")) {
 		resp.HarnessError = append(resp.HarnessError, fmt.Sprintf("worker exited with %v: %s", werr, tail(outBuf.String(), 2000)))
 	}
 	return &resp, nil
@@ -652,22 +659,39 @@ func findKnown(known []KnownFinding, prop, fp string) *KnownFinding {
 }
 
 func minimiseAndConfirm(b *build, scen string, seed uint64, v ViolationOut) (*Replay, error) {
-	resp, err := runWorker(b, Request{Scenario: scen, Mode: "shrink", TapeS: v.TapeS, TapeW: v.TapeW, Target: v.Class}, 2, 15*time.Minute)
-	if err != nil {
-		return nil, err
+	var mv ViolationOut
+	resp := &Response{}
+	if strings.Contains(b.Dir, "race") {
+		// the race detector reports every pair of stacks once per process, so a report cannot be
+		// re-detected while shrinking in one process: the unminimised tapes are confirmed as they are
+		mv = v
+	} else {
+		var err error
+		resp, err = runWorker(b, Request{Scenario: scen, Mode: "shrink", TapeS: v.TapeS, TapeW: v.TapeW, Target: v.Class}, 2, 15*time.Minute)
+		if err != nil {
+			return nil, err
+		}
+		if len(resp.HarnessError) > 0 || len(resp.Violations) == 0 {
+			return nil, fmt.Errorf("minimisation failed: %v", resp.HarnessError)
+		}
+		mv = resp.Violations[0]
 	}
-	if len(resp.HarnessError) > 0 || len(resp.Violations) == 0 {
-		return nil, fmt.Errorf("minimisation failed: %v", resp.HarnessError)
-	}
-	mv := resp.Violations[0]
 	// fresh-process confirmation of the minimised tapes
 	c, err := runWorker(b, Request{Scenario: scen, Mode: "replay", TapeS: mv.TapeS, TapeW: mv.TapeW, Trace: true}, 2, 5*time.Minute)
 	if err != nil {
 		return nil, err
 	}
-	if len(c.Violations) == 0 || c.Violations[0].Class != v.Class || c.Violations[0].Fingerprint != mv.Fingerprint {
+	found := -1
+	for i := range c.Violations {
+		if c.Violations[i].Class == v.Class && c.Violations[i].Fingerprint == mv.Fingerprint {
+			found = i
+			break
+		}
+	}
+	if found < 0 {
 		return nil, fmt.Errorf("minimised replay does not reproduce %s in a fresh process (got %d violations)", v.Class, len(c.Violations))
 	}
+	c.Violations[0] = c.Violations[found]
 	if len(c.Traces) == 1 && len(resp.Traces) == 1 && c.Traces[0] != resp.Traces[0] {
 		return nil, fmt.Errorf("replay trace diverged between processes")
 	}
@@ -675,8 +699,9 @@ func minimiseAndConfirm(b *build, scen string, seed uint64, v ViolationOut) (*Re
 	return &Replay{Version: 1, Property: v.Property, Scenario: scen, Backend: "A", VerifSeed: seed, Run: v.Run,
 		Build: map[string]any{"race": strings.Contains(b.Dir, "race"), "fine_grain": strings.Contains(b.Dir, "fine")},
 		TapeS: mv.TapeS, TapeW: mv.TapeW,
+		Minimised: !strings.Contains(b.Dir, "race"),
 		Violation: map[string]any{"oracle": cv.Oracle, "fingerprint": cv.Fingerprint, "class": cv.Class, "message": cv.Message, "step": cv.Step, "outcome": cv.Outcome},
-		Summary:   cv.Summary, Faults: cv.Faults, Trace: cv.Trace, Log: cv.Log, Minimised: true, ShrinkTests: mv.ShrinkTests}, nil
+		Summary:   cv.Summary, Faults: cv.Faults, Trace: cv.Trace, Log: cv.Log, ShrinkTests: mv.ShrinkTests}, nil
 }
 
 func safeName(s string) string {
@@ -855,6 +880,9 @@ func cmdDebug(args []string) int {
 		for _, s := range r.Samples {
 			fmt.Printf("sample run=%d outcome=%s steps=%d policy=%s %s\n", s.Run, s.Outcome, s.Steps, s.Policy, s.Summary)
 		}
+		for _, v := range r.Violations {
+			fmt.Printf("violation run=%d %s: %s\n", v.Run, v.Fingerprint, firstLine(v.Message))
+		}
 		fmt.Println(r.Outcomes, r.HarnessError)
 		return 0
 	}
@@ -867,7 +895,7 @@ func cmdDebug(args []string) int {
 		fmt.Println(v.Summary)
 		n := len(v.Trace)
 		for i, l := range v.Trace {
-			if i < 150 || i > n-150 {
+			if i < 150 || i > n-150 || os.Getenv("SIMCHECK_FULLTRACE") != "" {
 				fmt.Println("  ", l)
 			}
 		}
